@@ -25,7 +25,7 @@ Definition tmpl_of (j : nat) (secret : str) : list titem :=
 Definition run (args : list bytes) : bytes :=
   let op := nth_arg args 0 in
   if is_op "mask" op then mask_password (nth_arg args 1) (nth_arg args 2)
-  else if is_op "zone" op then out_bool (zone_K12 (nth_arg args 1))
+  else if is_op "zone" op then lit "K12:" ++ out_bool (zone_K12 (nth_arg args 1)) ++ lit " K14:" ++ out_bool (zone_K14 (nth_arg args 1))
   else if is_op "search" op then
     out_span (re_search (pat_of (arg_nat (nth_arg args 1)) (arg_nat (nth_arg args 2))) (nth_arg args 3))
   else if is_op "sub" op then
